@@ -1631,8 +1631,13 @@ func (h *Hashgraph) CheckBlock(block *Block, peerSet *peers.PeerSet) error {
 	}
 
 	validSignatures := 0
+	counted := make(map[string]bool)
 	for _, s := range block.GetSignatures() {
 		validatorHex := s.ValidatorHex()
+		// count each validator once, however its key is spelled in the map
+		if counted[validatorHex] {
+			continue
+		}
 		if _, ok := peerSet.ByPubKey[validatorHex]; !ok {
 			h.logger.WithFields(logrus.Fields{
 				"validator": validatorHex,
@@ -1642,6 +1647,7 @@ func (h *Hashgraph) CheckBlock(block *Block, peerSet *peers.PeerSet) error {
 		ok, _ := block.Verify(s)
 		if ok {
 			validSignatures++
+			counted[validatorHex] = true
 		}
 	}
 
